@@ -2,5 +2,11 @@
 import DW.Generated.Tables
 import DW.Model.Strings
 import DW.Model.ObjPath
+import DW.Model.Values
+import DW.Model.Std
+import DW.Model.Dump
+import DW.Model.Load
 import DW.Driver.Strings
+import DW.Driver.Codec
+import DW.Driver.Core
 import DW.Props.C08
